@@ -2,7 +2,7 @@
    _add_procedure_calls, and outside the recorded defect regions, what the model leaves in
    unit.calls is, as a set, what the Spec says the unit invokes. *)
 From Coq Require Import ZArith Lia.
-From Ford Require Import Base.Str Base.StrFacts Gen.Intrinsics Sem.Calls Sem.CallsSpec Sem.CallsStrip Sem.CallsScan
+From Ford Require Import Base.Str Base.StrFacts Gen.Intrinsics Sem.Calls Sem.CallsSpec Sem.CallsDefs Sem.CallsStrip Sem.CallsScan
   Sem.CallsStmt Sem.CallsProofs.
 
 (* ------------------------------------------------------------------ level order against pre-order *)
@@ -30,14 +30,6 @@ Qed.
 Lemma deep_heads_S d e : deep_heads (S d) [e] = deep_heads d (subs_e e).
 Proof. cbn [deep_heads flat_map]. now rewrite app_nil_r. Qed.
 
-(* the references of a designator: one chain per part that has an argument list *)
-Fixpoint self_refs_d (pre : chain) (d : desig) : list chain :=
-  match d with
-  | DLast0 _ => []
-  | DLastA x _ => [pre ++ [lower x]]
-  | DPart0 x r => self_refs_d (pre ++ [lower x]) r
-  | DPartA x _ r => (pre ++ [lower x]) :: self_refs_d (pre ++ [lower x]) r
-  end.
 
 Lemma refs_d_split :
   (forall e : expr, True) /\
@@ -74,25 +66,7 @@ Proof.
     try reflexivity; try discriminate. destruct (d_head_chain r'); [discriminate|]. now apply IHr.
 Qed.
 
-(* references the model does not record by themselves: every  name(args)  part of a designator
-   but the last one *)
-Definition inner_self (d : desig) : list chain := removelast (self_refs_d [] d).
 
-Fixpoint inner_e (e : expr) : list chain :=
-  match e with
-  | ELit _ => []
-  | EDes d => inner_self d ++ inner_args d
-  | EPar e' => inner_e e'
-  | EUn _ e' => inner_e e'
-  | EBin a _ b => inner_e a ++ inner_e b
-  end
-with inner_args (d : desig) : list chain :=
-  match d with
-  | DLast0 _ => []
-  | DLastA _ a => inner_e a
-  | DPart0 _ r => inner_args r
-  | DPartA _ a r => inner_e a ++ inner_args r
-  end.
 
 Lemma in_removelast_or {A} (l : list A) (d x : A) : In x l -> In x (removelast l) \/ x = last l d.
 Proof.
@@ -290,27 +264,9 @@ Proof.
   unfold stmt_step. destruct (line_step st (mask_quotes x)); [apply IH|reflexivity].
 Qed.
 
-Definition is_none {A} (o : option A) : bool := match o with None => true | Some _ => false end.
 
-(* the statement falls through the earlier branches of the cascade *)
-Definition cascade_ok (line : str) : bool :=
-  negb (format_re line) && negb (end_associate_re line) && is_none (associate_re line) && negb (arith_goto_re line).
-(* the statement is dropped by the FORMAT or the GO TO branch *)
-Definition cascade_skips (line : str) : bool :=
-  format_re line || (negb (end_associate_re line) && is_none (associate_re line) && arith_goto_re line).
 
-Definition unit_chains (st : stmt) : list chain := if seg_stmt st then stmt_chains st else [].
 
-(* the statement reaches _add_procedure_calls when it holds a reference (decided by evaluating the
-   recognisers on the rendered text), or is skipped as FORMAT / GO TO *)
-Definition step_ok (st : stmt) : bool :=
-  match st with
-  | SFormat _ _ _ => cascade_skips (render_stmt st)
-  | SGoto _ _ => cascade_skips (render_stmt st)
-  | SAssoc _ _ => false
-  | SEndAssoc => false
-  | _ => cascade_ok (render_stmt st) && (call_gate (render_stmt st) || is_nil (stmt_chains st))
-  end.
 
 Lemma subst_head_nil ch : subst_head [] ch = ch.
 Proof. destruct ch; reflexivity. Qed.
@@ -340,7 +296,6 @@ Proof.
     try discriminate; try (apply Hseg; [reflexivity|exact Hstep]); cbn [append_calls]; now apply Hskip.
 Qed.
 
-Definition assoc_free_stmt (st : stmt) : bool := match st with SAssoc _ _ | SEndAssoc => false | _ => true end.
 
 Lemma run_unit ss : forall calls,
   forallb wf_stmt ss = true -> forallb plain_ok ss = true -> forallb step_ok ss = true ->
@@ -352,21 +307,8 @@ Proof.
   rewrite (line_step_stmt st calls Hw Hp1 Hs1). rewrite (IH _ Hwf Hp Hs). now rewrite append_calls_app.
 Qed.
 
-(* ------------------------------------------------------------------ resolution *)
-Definition ent_flags_ok (e : entity) : bool :=
-  match e with EFunc _ _ ht => ht | EVar _ pt => pt | _ => true end.
 
-Fixpoint keys_unique (l : labels) : bool :=
-  match l with
-  | [] => true
-  | (k, _) :: l' => negb (str_in k (map fst l')) && keys_unique l'
-  end.
 
-Definition labels_ok (l : labels) : bool := keys_unique l && forallb (fun p => ent_flags_ok (snd p)) l.
-(* the tables are what a correct name resolution delivers: one meaning per name in every scope,
-   every object fully correlated *)
-Definition tb_ok (tb : symtab) : bool :=
-  labels_ok (st_scope tb) && forallb (fun p => labels_ok (snd p)) (st_types tb).
 
 Lemma labels_get_absent k l found : str_in k (map fst l) = false -> labels_get k l found = found.
 Proof.
@@ -435,9 +377,6 @@ Proof.
   destruct (denote tb (st_scope tb) ch); reflexivity.
 Qed.
 
-(* ------------------------------------------------------------------ model chains against Spec references *)
-Definition seg_inner (g : seg) : list chain :=
-  match g with GWord _ => [] | GKw _ _ c => inner_e c | GExpr e => inner_e e end.
 
 Lemma lower_keywords : forall k, In k grammar_keywords -> lower k = k.
 Proof.
@@ -523,13 +462,6 @@ Proof.
     destruct (last_has_args r); [|reflexivity]. now rewrite <- app_assoc.
 Qed.
 
-(* references the model does not record by themselves, per statement *)
-Definition stmt_inner (st : stmt) : list chain :=
-  match st with
-  | SCall _ d => inner_refs_d [] d ++ inner_args d
-  | SIfCall _ _ c d => inner_e c ++ inner_refs_d [] d ++ inner_args d
-  | _ => flat_map seg_inner (stmt_segs st)
-  end.
 
 Lemma lab_segs_refs lab gs : flat_map seg_refs (lab_segs lab ++ gs) = flat_map seg_refs gs.
 Proof. destruct lab; reflexivity. Qed.
@@ -608,13 +540,6 @@ Proof.
   - change (last_has_args r = true) in H. now rewrite (IH H).
 Qed.
 
-(* a labelled CALL carries an argument list (region 4 otherwise) *)
-Definition lab_call_ok (st : stmt) : bool :=
-  match st with
-  | SCall (Some _) d => last_has_args d
-  | SIfCall (Some _) _ _ d => last_has_args d
-  | _ => true
-  end.
 
 Lemma wf_stmt_all st : seg_stmt st = true -> wf_stmt st = true -> forallb wf_seg (stmt_segs st) = true.
 Proof. intros Hs Hwf. apply wf_segs_all. exact (proj1 (wf_stmt_segs st Hs Hwf)). Qed.
@@ -705,15 +630,6 @@ Proof.
   rewrite E. destruct st; try discriminate; now rewrite (IH H2).
 Qed.
 
-(* the hypotheses of exactness *)
-Definition resolvable (tb : symtab) (ss : list stmt) : bool :=
-  forallb wf_stmt ss && forallb plain_ok ss && forallb step_ok ss     (* well formed; every statement reaches the scan or is FORMAT / GO TO *)
-  && tb_ok tb                                                         (* correct name tables (C07) *)
-  && forallb lab_call_ok ss                                           (* region 4 *)
-  && negb (region_goto_expr ss)                                       (* region 9 *)
-  && negb (region_intrinsic_named tb ss)                              (* region 3 *)
-  && negb (region_same_last tb ss)                                    (* region 2 *)
-  && forallb (fun ch => is_nil (classify0 tb ch)) (flat_map stmt_inner ss).   (* inner parts of designators are variables *)
 
 Lemma unit_chains_refs st ch : wf_stmt st = true -> step_ok st = true -> In ch (unit_chains st) ->
   keep ch = false \/ In ch (stmt_refs st).
